@@ -258,7 +258,7 @@ impl Part for Select {
         "C05"
     }
     fn rule(&self) -> String {
-        "Named struct S { a, m, b }, 1-3 named counterparts, all 12 conversion kinds requested for each; on member m a random set of member instructions built cell by cell (21 mapping names x {default, dedicated to each counterpart}, exact covers so that no two instructions tie in a (kind, fallibility, dedication) cell, plus ghost / ghost_owned / ghost_ref x dedication), each carrying a unique integer marker in its expression (and half of them a unique rename), in random order and spelling. Oracle 1: an independent select(kind, fallible, T) implementing the chain as the property states it; in every one of the 12 x n impls exactly the winner's marker is present (none when a ghost skips the field). Oracle 2 (non-interference): one more instruction is added in a free cell; every impl whose winner is unchanged must be token-identical before and after. Non-trivial = >= 3 instructions on m and >= 1 impl decided by a fallback level; distinct by input text. Oracle 4 (1 case in 6): a default #[child(zz)] that every Into-capable counterpart shadows with its own dedicated #[child(T| a)] changes nothing for those counterparts (with every counterpart shadowing it: the whole outcome; with one From-only counterpart left to use it: the input stays accepted and the shadowing counterparts' impls are unchanged).".into()
+        "Named struct S { a, m, b }, 1-3 named counterparts, all 12 conversion kinds requested for each; on member m a random set of member instructions built cell by cell (21 mapping names x {default, dedicated to each counterpart}, exact covers so that no two instructions tie in a (kind, fallibility, dedication) cell, plus ghost / ghost_owned / ghost_ref x dedication), each carrying a unique integer marker in its expression (and half of them a unique rename), in random order and spelling. Oracle 1: an independent select(kind, fallible, T) implementing the chain as the property states it; in every one of the 12 x n impls exactly the winner's marker is present (none when a ghost skips the field). Oracle 2 (non-interference): one more instruction is added in a free cell; every impl whose winner is unchanged must be token-identical before and after. Non-trivial = >= 3 instructions on m and >= 1 impl decided by a fallback level; distinct by input text. Oracle 4 (1 case in 6): a default #[child(zz)] that every Into-capable counterpart shadows with its own dedicated #[child(T| a)] changes nothing for those counterparts (with every counterpart shadowing it: the whole outcome; with one From-only counterpart left to use it: the input stays accepted and the shadowing counterparts' impls are unchanged). Oracle 5 (1 in 6): the same for a default parameterised #[parent(..)] with an untyped nested level next to dedicated typed ones for every From counterpart.".into()
     }
     fn cases(&self, tier: Tier) -> usize {
         match tier {
@@ -435,6 +435,49 @@ impl Part for Select {
                         nontrivial,
                         labels,
                         verdict: ctx.fail_or_known("C05", None, "a default #[child] that a counterpart shadows with a dedicated one changes that counterpart's outcome".into(), json!({"before_input": t1, "after_input": t2, "after": after})),
+                    };
+                }
+            }
+        }
+        // Oracle 5: the same for a parameterised #[parent(..)]: a default one whose nested level is untyped (fine for Into, an error
+        // for From) next to dedicated, typed ones for every From counterpart is selected by no From conversion.
+        if t.chance(1, 6) {
+            let into_only = g.cps.len() >= 2 && t.coin();
+            let shadowing: Vec<&String> = if into_only { g.cps[..g.cps.len() - 1].iter().collect() } else { g.cps.iter().collect() };
+            let mut head = String::new();
+            let mut member = String::new();
+            for c in &shadowing {
+                head.push_str(&format!("#[{}({})] ", t.pick(&["from", "map", "from_owned", "from_ref"]), c));
+                member.push_str(&format!("#[parent({}| [parent(x)] inner: Inner)] ", c));
+            }
+            if into_only {
+                head.push_str(&format!("#[into({})] ", g.cps[g.cps.len() - 1]));
+            }
+            let with = if t.coin() { format!("#[parent([parent(x)] inner)] {}", member) } else { format!("{}#[parent([parent(x)] inner)] ", member) };
+            let t1 = format!("{}struct S {{ {}p: P, y: i32 }}", head, member);
+            let t2 = format!("{}struct S {{ {}p: P, y: i32 }}", head, with);
+            if let (crate::props::util::Exp::Ok { items: i1, .. }, o2) = (crate::props::util::expand_items(&t1), crate::props::util::expand_items(&t2)) {
+                labels.push("shadowed-default-parent-checked".into());
+                let keyed = |items: &[ImplItem]| -> Vec<String> {
+                    let mut v: Vec<String> = items.iter().filter(|i| i.key().map_or(false, |k| shadowing.iter().any(|c| k.counterpart.replace(' ', "") == c.replace(' ', "")))).map(|i| i.text.clone()).collect();
+                    v.sort();
+                    v
+                };
+                let same = match &o2 {
+                    crate::props::util::Exp::Ok { items: i2, .. } => keyed(&i1) == keyed(i2),
+                    _ => false,
+                };
+                if !same {
+                    let after = match &o2 {
+                        crate::props::util::Exp::Ok { text, .. } => text.clone(),
+                        crate::props::util::Exp::Other(o) => o.short(),
+                        _ => "unsplittable output".to_string(),
+                    };
+                    return CaseReport {
+                        key: text.clone(),
+                        nontrivial,
+                        labels,
+                        verdict: ctx.fail_or_known("C05", None, "a default #[parent(..)] that a counterpart shadows with a dedicated one changes that counterpart's outcome".into(), json!({"before_input": t1, "after_input": t2, "after": after})),
                     };
                 }
             }
